@@ -363,7 +363,7 @@ LimCl == /\ IsEvent("lim.cl")
                /\ ladm' = TruncL(adm2)
          /\ UNCHANGED <<cfg, q, answered, upsent, upq, stores, pf, fwd, seen, outst>>
 
-Other == (IsEvent("note") \/ IsEvent("up.recv.bad"))
+Other == (IsEvent("note") \/ IsEvent("up.recv.bad") \/ IsEvent("rawhttp.send") \/ IsEvent("rawhttp.out"))
          /\ UNCHANGED <<cfg, q, answered, upsent, upq, stores, pf, fwd, seen, outst, ladm>>
 
 Next == Cfg \/ ClSend \/ ClRecv \/ ClNone \/ UpRecv \/ UpSend \/ RtRule \/ RtFwd \/ RtDone \/ RtReq
